@@ -51,6 +51,13 @@ def kindOf : Raised → String
   | .stopStepGroup => "stopStepGroup" | .keyboardInterrupt => "keyboardInterrupt" | .error _ _ => "error"
   | .systemExit _ => "systemExit" | .baseOther _ _ => "baseOther"
 
+def raisedJ : Raised → Json
+  | .error ty msg => Json.mkObj [("kind", Json.str "error"), ("ty", Json.str ty), ("msg", Json.str msg)]
+  | .baseOther ty msg => Json.mkObj [("kind", Json.str "baseOther"), ("ty", Json.str ty), ("msg", Json.str msg)]
+  | .systemExit c => Json.mkObj [("kind", Json.str "systemExit"), ("code", match c with
+      | .absent => Json.null | .int n => intJ n | .other t => Json.mkObj [("text", Json.str t)])]
+  | r => Json.mkObj [("kind", Json.str (kindOf r))]
+
 /-- An outcome of `main` as the harness observes a process / an in-process call. -/
 def outcomeJ (log : Option Int) (raisedInTry : Raised) (o : Outcome) : Json :=
   let common := [("status", optJ natJ o.status), ("stderr", Json.str o.stderr),
@@ -278,6 +285,7 @@ def handle (op : String) (j : Json) : Except String Json := do
     let log ← (match j.getObjVal? "log_level" with | .ok _ => optIntOf j "log_level" | .error _ => pure none)
     pure ((outcomeJ log (pipelineRun out) (tryMain (pipelineRun out)))
       |>.setObjVal! "leaves_run" (Json.str (kindOf out))
+      |>.setObjVal! "leaves" (raisedJ out)
       |>.setObjVal! "body" (Json.str (kindOf (tryBody mains su)))
       |>.setObjVal! "mains_started" (natJ (mainGroupsStarted mains))
       |>.setObjVal! "success_started" (Json.bool (successStarted mains su))
